@@ -183,6 +183,39 @@ def R3_limit_validation(run):
     run.check("R3", "no-explicit-limit-sentinel", ok, "the default limit is not selected by sqrt_price_limit == NO_EXPLICIT_SQRT_PRICE_LIMIT (0)", loc=fn.loc(), detail="sqrt_price_limit == 0")
 
 
+def R4b_loop_exits(run):
+    run.title("R4b", "the swap loop ends successfully only through its own condition: the specified amount is used up, or the price has reached the (explicit or protocol) "
+                     "limit; every other way out is an error (a `break` on running out of tick arrays would settle a partial fill away from the limit)")
+    facts = run.facts
+    fn = facts.need_fn(SWAPFN)
+    run.touch(fn)
+    from analysis.prov import Prov
+    pv = Prov(fn, cut="loop")
+    cyc = pv.cycle_blocks()
+    ats = {at.block: at for at in A.atoms(fn, {}, cut="loop")}
+    exits, odd = 0, []
+    for b in sorted(cyc):
+        if fn.blocks[b]["c"]:
+            continue
+        for s_ in fn.succ()[b]:
+            if s_ in cyc or fn.blocks[s_]["c"] or cfg.fail_only(fn, s_):
+                continue
+            exits += 1
+            at = ats.get(b)
+            c = at.cond() if at is not None else None
+            good = False
+            if c:
+                x, y = strip(c[1]), strip(c[2])
+                rem = any(t[0] == "var" and t[1] == "amount_remaining" for t in (x, y)) and any(const_val(t) == 0 for t in (x, y)) and c[0] in ("Gt", "Ne", "Eq", "Le", "Lt")
+                lim = c[0] in ("Ne", "Eq") and any(t[0] == "var" and "sqrt_price" in t[1] for t in (x, y)) and \
+                    any(mentions(t, lambda z: (z[0] == "param" and z[1] == "sqrt_price_limit") or (z[0] == "const" and z[2] and z[2].endswith(("MIN_SQRT_PRICE_X64", "MAX_SQRT_PRICE_X64")))) for t in (x, y))
+                good = rem or lim
+            if not good:
+                odd.append("block %d (%s)" % (b, sh(at.term, 60) if at is not None else fn.blocks[b]["t"]["k"]))
+    run.check("R4b", "loop-exits", exits >= 2 and not odd, "swap() leaves its loop without failing at %s; only `amount_remaining > 0` and `price != limit` may end it" % (odd or "no recognisable exit"),
+              loc=fn.loc(), detail="%d exits, all through amount_remaining > 0 / sqrt_price != limit" % exits)
+
+
 def R4_partial_fill(run):
     run.title("R4", "exact-out with no explicit limit and amount remaining > 0 fails with PartialFillError before Ok")
     facts = run.facts
@@ -376,4 +409,4 @@ def R7_amount_and_limit_wiring(run):
     entry_forwarding(run, "R7", only=("swap",))
 
 
-RULES = [R1_threshold_table, R3_limit_validation, R4_partial_fill, R5_target_clamp, R6_amount_accounting, R7_amount_and_limit_wiring]
+RULES = [R1_threshold_table, R3_limit_validation, R4_partial_fill, R4b_loop_exits, R5_target_clamp, R6_amount_accounting, R7_amount_and_limit_wiring]
